@@ -650,6 +650,22 @@ static void run_unit(uint64_t ui)
     }
     break;
   case F_LL:
+    if (U.form >= 2)
+      for (auto &a : Lval)
+      { // the aliased form: the same object on both sides (`c += c`, `c -= c`)
+        std::string t = nm + " " + a.txt + " (the same object)";
+        CASE(t);
+        ++nontriv;
+        RefLin ra = rl(a), e;
+        bool add = U.form % 2 == 0;
+        for (int v = 0; v < 3; ++v)
+          e.c[v] = add ? ra.c[v] + ra.c[v] : ra.c[v] - ra.c[v];
+        e.k = add ? ra.k + ra.k : ra.k - ra.k;
+        lin c = mk(a);
+        lin ret = add ? (c += c) : (c -= c);
+        int j = std::max(judge(c, e), judge(ret, e));
+        report(nm + ":aliased", t, j, show(c) + " returned " + show(ret), show(e));
+      }
     for (auto &a : Lval)
       for (auto &b : Lval)
       {
